@@ -82,8 +82,7 @@ class LowerBound:
         """lower bound of `attr_text` (e.g. 'self.total_length') guaranteed at every normal return of fi."""
         an = self.analysis(fi, ctx)
         exits = [n for n in walk_local(fi.node) if isinstance(n, ast.Return)]
-        last = fi.node.body[-1]
-        if not isinstance(last, (ast.Return, ast.Raise)):
+        if an.cfg.falls_off_end():
             return NEG  # implicit fall-through return: not modelled
         if not exits:
             return NEG
